@@ -14,7 +14,7 @@ git apply /tmp/confirm_$NAME.diff
 PYTHONPATH=$WT timeout 600 $PY _mutant/demo.py > /tmp/confirm_$NAME.mut.out 2>&1; MUT=$?
 echo "demo: unchanged exit=$CLEAN changed exit=$MUT"
 PYTHONPATH=$WT timeout 3000 $PY -m pytest -ra -q -p no:cacheprovider --timeout=900 --continue-on-collection-errors --no-cov -n ${NPROC:-6} tests > /tmp/confirm_$NAME.tests.log 2>&1
-grep -E "^(FAILED|ERROR)" /tmp/confirm_$NAME.tests.log | sed 's/ - .*//' | sort > /tmp/confirm_$NAME.failset
+grep -E "^(FAILED|ERROR)" /tmp/confirm_$NAME.tests.log | sed 's/ - .*//' | sort -u > /tmp/confirm_$NAME.failset
 NEW=$(comm -13 /tmp/baseline_failset.txt /tmp/confirm_$NAME.failset | wc -l)
 TAIL=$(tail -1 /tmp/confirm_$NAME.tests.log)
 echo "tests: $TAIL ; newly failing: $NEW"
